@@ -23,6 +23,8 @@ def run(tier, seed):
                     exception_is_failure=True, timeout_is_failure=True, quick_k=2, thorough_k=3)
     from .c17 import add_cons
     add_cons(rep, "C01")
+    from .c17 import add_list
+    add_list(rep, "C01")
     rep.explanation = (
         "Mixed. Deductive: SAFE (no IndexError/ValueError/AssertionError/unbound local at any site) and DEC (every loop terminates) obligations are "
         "discharged for the StateBlock scanning helpers, the seven leaf block rules, ParserBlock.tokenize (progress: the paragraph fallback always matches; rules run only under level < maxNesting on non-empty lines), ParserInline.tokenize/skipToken (position strictly advances; memo invariant cache[p] > p) and the escape rule, under the line-table invariant WF (which the run-time monitors "
